@@ -146,7 +146,7 @@ class ScenarioManager:
     params = dict(system_id=Int, mode=Enum("min", "max"), metrics=List(NanRealT), picks=List(Int))
     unbounded = False
     shapes = [{"metrics": n, "picks": n, "system_id": sid} for sid, n in ((0, 4), (1, 5), (2, 5))]
-    shapes_thorough = [{"metrics": n, "picks": n, "system_id": sid} for sid, n in ((0, 6), (1, 7), (2, 7))]
+    shapes_thorough = [{"metrics": n, "picks": n, "system_id": sid} for sid, n in ((0, 5), (1, 6), (2, 6))]
 
     def requires(s):
         return {"lens": len(s.metrics) == len(s.picks)}
